@@ -538,6 +538,12 @@ def _rewrite_dim(model, tgt, r1, r2):
         # tgt ** 1 or tgt * X / X
         others = [x for x in model.order if x != tgt]
         x = _pick(others, r2)
+        ds = [y for y in model.order if not model.types[y]['base']
+              and model.types[y]['dim']]
+        if style == 3 and ds:
+            d = _pick(ds, r2)
+            return [[tgt, 1], [d, 1]] + [[b, -e] for b, e in
+                                         sorted(model.types[d]['dim'].items())]
         if style % 2 == 0 or x is None:
             return [[tgt, 1]]
         return [[tgt, 1], [x, 1], [x, -1]]
@@ -556,6 +562,15 @@ def _rewrite_dim(model, tgt, r1, r2):
     if style == 2:
         x = _pick(model.order, r2)
         return items + [[x, 2], [x, -2]]
+    if style == 3:
+        # ... followed by a derived type and the inverse of its expansion:
+        # cancels only when the definition is normalised
+        ds = [x for x in model.order if not model.types[x]['base']
+              and model.types[x]['dim']]
+        d = _pick(ds, r2)
+        if d is not None:
+            return items + [[d, 1]] + [[b, -e] for b, e in
+                                       sorted(model.types[d]['dim'].items())]
     return [[tgt, 1]]
 
 
